@@ -1,18 +1,58 @@
 package chain
 
 import (
+	cmttypes "github.com/cometbft/cometbft/types"
+
 	cmtapi "github.com/oasisprotocol/oasis-core/go/consensus/cometbft/api"
+
+	"verif/sim/core"
 )
 
-// oraclesFor returns the oracle set of a property.
+// oracleFactories maps a property id to constructors of its oracles. Oracle files register
+// themselves in init().
+var oracleFactories = map[string][]func() Oracle{}
+
+// RegisterOracle registers an oracle constructor for a property.
+func RegisterOracle(prop string, f func() Oracle) {
+	oracleFactories[prop] = append(oracleFactories[prop], f)
+}
+
+// oraclesFor returns fresh oracle instances of a property.
 func oraclesFor(prop string) []Oracle {
-	switch prop {
-	default:
-		return nil
+	var out []Oracle
+	for _, f := range oracleFactories[prop] {
+		out = append(out, f())
 	}
+	return out
+}
+
+// probeAppFactories maps a property id to constructors of harness probe apps (registered in the
+// mux of every replica whose local configuration has ProbeApps set, or of every replica when
+// the factory says so).
+var probeAppFactories = map[string][]func(s *Sim, r *Replica) cmtapi.Application{}
+
+// RegisterProbeApp registers a probe app constructor for a property.
+func RegisterProbeApp(prop string, f func(s *Sim, r *Replica) cmtapi.Application) {
+	probeAppFactories[prop] = append(probeAppFactories[prop], f)
 }
 
 // probeAppsFor returns harness probe apps to register on a replica.
 func probeAppsFor(s *Sim, r *Replica) []cmtapi.Application {
+	var out []cmtapi.Application
+	for _, f := range probeAppFactories[s.Prop] {
+		if app := f(s, r); app != nil {
+			out = append(out, app)
+		}
+	}
+	return out
+}
+
+// BaseOracle is a no-op oracle to embed.
+type BaseOracle struct{}
+
+func (BaseOracle) Init(*Sim) *core.Violation                           { return nil }
+func (BaseOracle) BeforeBlock(*Sim, int64, []*BuiltTx) *core.Violation { return nil }
+func (BaseOracle) AfterBlock(*Sim, int64, *cmttypes.Block, []*BuiltTx, *BlockResult) *core.Violation {
 	return nil
 }
+func (BaseOracle) Finish(*Sim) (*core.Violation, bool) { return nil, true }
